@@ -10,6 +10,7 @@ SOLVERS = {
     'cvc5-1.0.3': lambda f, t: ['cvc5', '--tlimit=%d' % (t * 1000), '--produce-models', f],
 }
 _skolem = itertools.count()
+AXIOMATIZER = None       # set by the engine: object-identity axioms for the elem/sub terms of a query
 
 
 def collect_index_terms(exprs, limit=40):
@@ -99,6 +100,10 @@ def expand(ob, extra_terms=(), relevant=False):
                 for t in uniq: hyps.append(q.fn(t))
             else:
                 for tup in itertools.product(uniq[:12], repeat=q.arity): hyps.append(q.fn(*tup))
+        if AXIOMATIZER is not None:
+            hyps = hyps + AXIOMATIZER(hyps + [goal])
+    elif AXIOMATIZER is not None and sk:
+        hyps = hyps + AXIOMATIZER(hyps + [goal])
     return hyps, goal
 
 
@@ -120,6 +125,8 @@ def expand_native(ob):
     if isinstance(goal, QForall):
         ks = [z3.Int('sk!%d' % next(_skolem)) for _ in range(goal.arity)]
         goal = goal.fn(*ks)
+    if AXIOMATIZER is not None and nq:
+        hyps = hyps + AXIOMATIZER(hyps + [goal], quantified=True) + AXIOMATIZER([h for h in hyps if not z3.is_quantifier(h)] + [goal])
     return hyps, goal, nq
 
 
